@@ -461,6 +461,51 @@ func checkC09(c *hx.Checker) {
 			}
 		}
 	}
+	// ties between -0 and +0 (equal values: the FIRST position wins, the reduced value may be either zero), also below
+	// and above other values
+	for _, dt := range []ref.DT{ref.F32, ref.F64} {
+		nz := ref.EncF(dt, math.Copysign(0, -1))
+		pz := ref.EncF(dt, 0)
+		neg := ref.EncF(dt, -1)
+		for vi, row := range [][]uint64{{nz, pz}, {pz, nz}, {nz, pz, nz}, {neg, nz, pz}, {neg, pz, nz}, {nz, nz, pz, pz}, {pz, neg, nz}} {
+			x := &ref.T{DT: dt, Shape: []int{2, len(row)}, V: append(append([]uint64{}, row...), row...)}
+			for _, kd := range []int{0, 1} {
+				e1, err1 := ref.ArgMax(x, 1, kd != 0)
+				jobs = append(jobs, newJob("ArgMax", []hx.Attr{hx.AInt("axis", 1), hx.AInt("keepdims", int64(kd))}, []*ref.T{x}, []*ref.T{e1}, err1, hx.DCompute, hx.Bits, "op", nil, fmt.Sprintf("signed-zero-ties %s v=%d kd=%d", dt, vi, kd), "signed-zero-ties"))
+			}
+		}
+	}
+	// row counts just past multiples of 16384 (row-blocked kernels: a last block of one row), few columns
+	for _, sh := range [][]int{{16385, 3}, {32769, 2}, {16384, 3}, {16386, 2}} {
+		x := ref.Fill(ref.F32, sh, func(i int) float64 { return float64((i*37+11)%101)/10 - 5 })
+		for _, ax := range []int{1, 0} {
+			e4, err4 := ref.Softmax(x, ax, false)
+			jobs = append(jobs, newJob("Softmax", []hx.Attr{hx.AInt("axis", int64(ax))}, []*ref.T{x}, []*ref.T{e4}, err4, hx.DCompute, hx.Tol(2e-4, 1e-37), "op", nil, fmt.Sprintf("many-rows %v axis=%d", sh, ax), "large", "many-rows"))
+			e5, err5 := ref.Softmax(x, ax, true)
+			jobs = append(jobs, newJob("LogSoftmax", []hx.Attr{hx.AInt("axis", int64(ax))}, []*ref.T{x}, []*ref.T{e5}, err5, hx.DCompute, hx.Tol(2e-4, 2e-4), "op", nil, fmt.Sprintf("many-rows %v axis=%d", sh, ax), "large", "many-rows"))
+			e2, err2 := ref.Reduce(x, []int64{int64(ax)}, true, false, true)
+			jobs = append(jobs, newJob("ReduceMax", []hx.Attr{hx.AInts("axes", int64(ax)), hx.AInt("keepdims", 0)}, []*ref.T{x}, []*ref.T{e2}, err2, hx.DCompute, hx.Bits, "op", nil, fmt.Sprintf("many-rows %v axis=%d", sh, ax), "large", "many-rows"))
+			e1, err1 := ref.ArgMax(x, ax, false)
+			jobs = append(jobs, newJob("ArgMax", []hx.Attr{hx.AInt("axis", int64(ax)), hx.AInt("keepdims", 0)}, []*ref.T{x}, []*ref.T{e1}, err1, hx.DCompute, hx.Bits, "op", nil, fmt.Sprintf("many-rows %v axis=%d", sh, ax), "large", "many-rows"))
+		}
+	}
+	// larger matrices whose FIRST row / first element dominates by more than exp() can span, normalised along axis 0
+	// (every column is its own slice; the last-axis variant of this is KF-C09-1)
+	for _, sh := range [][]int{{70, 64}, {64, 70}, {130, 33}} {
+		for vi := 0; vi < 2; vi++ {
+			x := ref.Fill(ref.F32, sh, func(i int) float64 {
+				row, col := i/sh[1], i%sh[1]
+				if row == 0 && (vi == 0 || col == 0) {
+					return 150 + float64(col%3)
+				}
+				return float64((i*37+11)%101)/10 - 5
+			})
+			e4, err4 := ref.Softmax(x, 0, false)
+			jobs = append(jobs, newJob("Softmax", []hx.Attr{hx.AInt("axis", 0)}, []*ref.T{x}, []*ref.T{e4}, err4, hx.DCompute, hx.Tol(2e-4, 1e-37), "op", nil, fmt.Sprintf("dominant-first-row %v v=%d", sh, vi), "large", "dominant-first-row"))
+			e5, err5 := ref.Softmax(x, 0, true)
+			jobs = append(jobs, newJob("LogSoftmax", []hx.Attr{hx.AInt("axis", 0)}, []*ref.T{x}, []*ref.T{e5}, err5, hx.DCompute, hx.Tol(2e-4, 2e-4), "op", nil, fmt.Sprintf("dominant-first-row %v v=%d", sh, vi), "large", "dominant-first-row"))
+		}
+	}
 	// long slices full of ties (maxima that repeat at even and odd positions, near the start, near the end): unrolled or
 	// multi-lane scans must still return the FIRST position
 	for _, dt := range []ref.DT{ref.F32, ref.I32, ref.I64, ref.F64} {
